@@ -12,17 +12,33 @@ var mutTokens = []string{
 	"(", ")", "(?:", "(?=", "(?!", "(?<=", "(?<!", "(?>", "(?<n>", "(?'n'", "(?<1>", "(?<n-m>", "(?<-n>", "(?P<n>", "(?P=n)", "(?(1)", "(?(n)", "(?(?=a)", "(?#", "(?i)", "(?-i)", "(?imnsx-imnsx:", "(?x)",
 	"[", "]", "[^", "[a-", "-[", "[[:alpha:]]", "[[:^digit:]", "[:", ":]", "\\p{L}", "\\P{", "\\p{IsGreek}", "\\pL", "\\p{^L}", "\\p{Lu", "\\p{gc=Lu}", "\\p{sc=Greek}",
 	"{", "}", "{1", "{1,", "{1,2}", "{,2}", "{2,1}", "{99999999999}", "{2147483647}", "{2147483648}", "{0,2147483647}", "*", "+", "?", "*?", "+?", "??", "**", "+*",
-	"|", "||", "^", "$", ".", "\\", "\\\\", "\\A", "\\Z", "\\z", "\\b", "\\B", "\\G", "\\d", "\\D", "\\w", "\\W", "\\s", "\\S",
+	"|", "||", "^", "$", ".", "\\", "\\", "\\A", "\\Z", "\\z", "\\b", "\\B", "\\G", "\\d", "\\D", "\\w", "\\W", "\\s", "\\S",
 	"\\1", "\\2", "\\9", "\\10", "\\99", "\\0", "\\07", "\\377", "\\400", "\\k<n>", "\\k<1>", "\\k'n'", "\\k<", "\\k{n}", "\\g1", "\\<n>",
 	"\\x", "\\x4", "\\x41", "\\x{41}", "\\x{110000}", "\\x{", "\\u", "\\u00", "\\u0041", "\\u{41}", "\\cA", "\\c", "\\c1", "\\e", "\\a", "\\_", "\\-", "\\ ",
 	"#", " ", "\n", "\x00", "\t", "a", "Z", "0", "é", "\U0001F600", "́", "�", "￿", "\xff", "\xc0", "\xed\xa0\x80", "\xf4\x90\x80\x80",
+}
+
+// constructs cut off in the middle: appended at the very end of a pattern they exercise the
+// parser's end-of-input guards
+var truncTokens = []string{
+	"[[:alpha:", "[[:alpha", "[[:", "[[:^digit:", "[[", "[a-", "[a", "[\\", "[^", "[a-z-[", "[a-z-[b", "[\\p{", "[\\p{L", "[\\d-",
+	"\\p{", "\\p{L", "\\p", "\\P{L", "\\x{", "\\x{4", "\\x4", "\\x", "\\u00", "\\u", "\\c", "\\k<n", "\\k<", "\\k", "\\k'", "\\0", "\\1", "\\",
+	"(?<", "(?<n", "(?<n-", "(?<n-m", "(?<-", "(?'", "(?'n", "(?P<", "(?P<n", "(?P=", "(?P=n", "(?P", "(?(", "(?(1", "(?(n", "(?(?", "(?(?=", "(?", "(", "(?#", "(?#c",
+	"(?i", "(?i-", "(?i-m", "(?-", "(?:", "(?=", "(?<=", "(?<!", "(?>", "{", "{1", "{1,", "{1,2", "a{", "a{1", "a{1,", "a{1,2", "a{2147483647", "a*?", "a|", "|",
 }
 
 // Mutate returns a mutant of s.
 func Mutate(s string, pool []string, rng *rand.Rand) string {
 	b := []byte(s)
 	for k := 1 + rng.Intn(3); k > 0; k-- {
-		switch rng.Intn(12) {
+		switch rng.Intn(14) {
+		case 12, 13: // end the pattern in the middle of a construct
+			t := truncTokens[rng.Intn(len(truncTokens))]
+			if rng.Intn(3) == 0 && len(b) > 0 {
+				b = b[:rng.Intn(len(b))]
+			}
+			b = append(b, t...)
+			k = 1 // keep it at the very end
 		case 0, 1, 2: // insert a token
 			t := mutTokens[rng.Intn(len(mutTokens))]
 			i := rng.Intn(len(b) + 1)
